@@ -282,7 +282,11 @@ def rstrip(val: str) -> str:
 @string_filter
 def strip_html(val: str, *, environment: Environment) -> str:
     """Return a copy of _val_ with all HTML tags removed."""
-    stripped = strip_tags(val)
+    try:
+        stripped = strip_tags(val)
+    except AssertionError as err:
+        # html.parser asserts on some malformed marked sections, "<![foo[".
+        raise FilterError(f"can't parse HTML: {err}", token=None) from err
     if environment.autoescape and isinstance(val, Markup):
         return Markup(stripped)
     return stripped
